@@ -1,1 +1,120 @@
+(* C05/Proofs.v — lemmas behind Properties.v *)
+From Coq Require Import ZArith List String Bool SpecFloat DecimalString DecimalNat Lia FinFun.
+From C05 Require Import Model.
+Import ListNotations.
+Open Scope string_scope.
+Open Scope list_scope.
 
+(* ------------------------------------------------------------------ names *)
+Lemma vname_inj : forall a b, vname a = vname b -> a = b.
+Proof.
+  intros a b H. unfold vname in H. cbn in H. injection H as H.
+  assert (E : NilEmpty.uint_of_string (NilEmpty.string_of_uint (Nat.to_uint a))
+            = NilEmpty.uint_of_string (NilEmpty.string_of_uint (Nat.to_uint b))) by (rewrite H; reflexivity).
+  rewrite !NilEmpty.usu in E. injection E as E.
+  rewrite <- (Unsigned.of_to a), <- (Unsigned.of_to b), E. reflexivity.
+Qed.
+
+Definition names (n : nat) : list string := map vname (seq 0 n).
+
+Lemma names_S : forall n, names (S n) = names n ++ [vname n].
+Proof. intro n. unfold names. rewrite seq_S, map_app. reflexivity. Qed.
+
+Lemma mem_true_iff : forall s l, mem s l = true <-> In s l.
+Proof.
+  intros s l. unfold mem. rewrite existsb_exists. split.
+  - intros [x [Hi He]]. apply String.eqb_eq in He. subst. exact Hi.
+  - intro H. exists s. split; [exact H | apply String.eqb_refl].
+Qed.
+
+Lemma in_names : forall k n, In (vname k) (names n) <-> (k < n)%nat.
+Proof.
+  intros k n. unfold names. rewrite in_map_iff. split.
+  - intros [j [Hj Hin]]. apply vname_inj in Hj. subst. apply in_seq in Hin. lia.
+  - intro H. exists k. split; [reflexivity | apply in_seq; lia].
+Qed.
+
+Lemma mem_names : forall k n, mem (vname k) (names n) = Nat.ltb k n.
+Proof.
+  intros k n. destruct (Nat.ltb k n) eqn:E.
+  - apply mem_true_iff, in_names. apply Nat.ltb_lt. exact E.
+  - destruct (mem (vname k) (names n)) eqn:M; [| reflexivity].
+    apply mem_true_iff, in_names in M. apply Nat.ltb_ge in E. lia.
+Qed.
+
+Lemma NoDup_names : forall n, NoDup (names n).
+Proof.
+  intro n. unfold names. apply FinFun.Injective_map_NoDup.
+  - intros a b H. apply vname_inj. exact H.
+  - apply seq_NoDup.
+Qed.
+
+(* ------------------------------------------------------------------ find_idx *)
+Lemma find_idx_some : forall s vr k, find_idx s vr = Some k -> nth_error vr k = Some s.
+Proof.
+  intros s vr. induction vr as [| x r IH]; intros k H; cbn in H; [discriminate |].
+  destruct (String.eqb s x) eqn:E.
+  - injection H as <-. apply String.eqb_eq in E. subst. reflexivity.
+  - destruct (find_idx s r) as [j |] eqn:F; cbn in H; [| discriminate].
+    injection H as <-. cbn. apply IH. reflexivity.
+Qed.
+
+Lemma find_idx_none : forall s vr, find_idx s vr = None -> ~ In s vr.
+Proof.
+  intros s vr. induction vr as [| x r IH]; intros H Hin; cbn in *; [exact Hin |].
+  destruct (String.eqb s x) eqn:E; [discriminate |].
+  destruct (find_idx s r) eqn:F; cbn in H; [discriminate |].
+  destruct Hin as [-> | Hin]; [rewrite String.eqb_refl in E; discriminate | exact (IH eq_refl Hin)].
+Qed.
+
+Lemma find_idx_lt : forall s vr k, find_idx s vr = Some k -> (k < List.length vr)%nat.
+Proof.
+  intros s vr k H. apply find_idx_some in H. apply nth_error_Some. rewrite H. discriminate.
+Qed.
+
+(* ------------------------------------------------------------------ ast_to_ir: var_refs only grows; parameters *)
+Definition prefix (a b : list string) : Prop := exists t, b = a ++ t.
+
+Lemma prefix_refl : forall a, prefix a a.
+Proof. intro a. exists []. rewrite app_nil_r. reflexivity. Qed.
+Lemma prefix_trans : forall a b c, prefix a b -> prefix b c -> prefix a c.
+Proof. intros a b c [t ->] [u ->]. exists (t ++ u). rewrite app_assoc. reflexivity. Qed.
+Lemma prefix_nth : forall a b k s, prefix a b -> nth_error a k = Some s -> nth_error b k = Some s.
+Proof.
+  intros a b k s [t ->] H. rewrite nth_error_app1; [exact H |]. apply nth_error_Some. rewrite H. discriminate.
+Qed.
+
+Lemma ast_to_ir_grows : forall T rho e vr i vr',
+  ast_to_ir T rho e vr = Some (i, vr') ->
+  prefix vr vr' /\ (NoDup vr -> NoDup vr') /\ walk (names (List.length vr)) i = names (List.length vr').
+Proof.
+  intros T rho e. induction e as [z | f r | s | op a IHa b IHb | op a IHa | op adv a IHa |]; intros vr i vr' H; cbn in H.
+  - injection H as <- <-. repeat split; [apply prefix_refl | tauto].
+  - injection H as <- <-. repeat split; [apply prefix_refl | tauto].
+  - destruct (rho s) as [v |]; [| discriminate]. destruct (admit_compile v); [| discriminate].
+    destruct (find_idx s vr) as [k |] eqn:F; injection H as <- <-.
+    + repeat split; [apply prefix_refl | tauto |]. cbn. rewrite mem_names.
+      apply find_idx_lt in F. apply Nat.ltb_lt in F. rewrite F. reflexivity.
+    + repeat split.
+      * exists [s]. reflexivity.
+      * intro ND. apply NoDup_app_comm_simple. constructor; [| exact ND]. apply find_idx_none. exact F.
+      * cbn. rewrite mem_names, Nat.ltb_irrefl. rewrite app_length. cbn. rewrite Nat.add_1_r, names_S. reflexivity.
+  - destruct (ast_to_ir T rho a vr) as [[l vr1] |] eqn:A; [| discriminate].
+    destruct (ast_to_ir T rho b vr1) as [[r vr2] |] eqn:B; [| discriminate].
+    destruct (IHa _ _ _ A) as [Pa [Na Wa]]. destruct (IHb _ _ _ B) as [Pb [Nb Wb]].
+    assert (G : prefix vr vr2 /\ (NoDup vr -> NoDup vr2)) by (split; [eapply prefix_trans; eauto | tauto]).
+    destruct (mem op (arith_ops T)).
+    + injection H as <- <-. destruct G. repeat split; auto. cbn. rewrite Wa, Wb. reflexivity.
+    + destruct (mem op (cmp_ops T)); [| discriminate].
+      injection H as <- <-. destruct G. repeat split; auto. cbn. rewrite Wa, Wb. reflexivity.
+  - destruct (String.eqb op "-"); [| discriminate].
+    destruct (ast_to_ir T rho a vr) as [[c vr1] |] eqn:A; [| discriminate].
+    injection H as <- <-. destruct (IHa _ _ _ A) as [Pa [Na Wa]]. repeat split; auto.
+  - destruct (mem op (redscan_ops T)); [| discriminate].
+    destruct (ast_to_ir T rho a vr) as [[c vr1] |] eqn:A; [| discriminate].
+    destruct (IHa _ _ _ A) as [Pa [Na Wa]].
+    destruct (String.eqb adv "/").
+    + injection H as <- <-. repeat split; auto.
+    + destruct (String.eqb adv "\"); [| discriminate]. injection H as <- <-. repeat split; auto.
+  - discriminate.
+Qed.
